@@ -354,7 +354,14 @@ def harness(args, timeout=600, debug=False, stdin=None):
                     break
                 except ValueError:
                     pass
+    if rc == 3 and isinstance(js, dict) and "hang" in js:
+        # the harness watchdog: a call into the crate did not return
+        HANGS.append({"args": [str(a) for a in args], "hang": js["hang"], "limit_ms": js.get("limit_ms")})
+        return rc, None, out, "[hang] " + json.dumps(js["hang"])[:600]
     return rc, js, out, err
+
+
+HANGS = []
 
 
 # --------------------------------------------------------------------------
@@ -460,7 +467,11 @@ def modelrun(lines, timeout=1200, nproc=NCPU):
                            timeout=timeout, universal_newlines=True)
         if p.returncode != 0:
             raise RuntimeError("modelrun failed: rc=%d %s" % (p.returncode, p.stderr[-500:]))
-        outl = p.stdout.strip("\n").split("\n")
+        # one line per case; a case whose answer is the empty list prints an empty line (keep it: only the
+        # terminating newline of the output is dropped)
+        outl = p.stdout.split("\n")
+        if outl and outl[-1] == "":
+            outl = outl[:-1]
         if len(outl) != len(chunk):
             raise RuntimeError("modelrun returned %d lines for %d cases" % (len(outl), len(chunk)))
         return [[int(t) for t in l.split()] for l in outl]
